@@ -4,14 +4,14 @@
 (* counters per direction; UDP datagrams carry an id. Each API call is judged when it returns.        *)
 EXTENDS Integers, Sequences, FiniteSets
 CONSTANTS Socks
-VARIABLES sk,       \* sk[h]: [ex, udp, closed, conn, listening, blocking, timeout, keepalive, backlog, peer, wclosed]
+VARIABLES sk,       \* sk[h]: [ex, udp, closed, conn, listening, blocking, timeout, keepalive, backlog, peer, wclosed, via (listener connected to)]
           queue,    \* queue[h]: connections waiting to be accepted on listener h (client handles, oldest first)
           sent,     \* sent[h]: bytes h has handed to the kernel on its connection
           rcvd,     \* rcvd[h]: bytes h has received from its peer
           dg        \* dg[h]: datagrams in flight towards h: set of <<id, len, from>>
 kvars == <<sk, queue, sent, rcvd, dg>>
 NoSock == [ex |-> FALSE, udp |-> FALSE, closed |-> FALSE, conn |-> FALSE, listening |-> FALSE, blocking |-> TRUE, timeout |-> 0,
-           keepalive |-> FALSE, backlog |-> 0, peer |-> 0, wclosed |-> FALSE]
+           keepalive |-> FALSE, backlog |-> 0, peer |-> 0, wclosed |-> FALSE, via |-> 0]
 KInit == /\ sk = [h \in Socks |-> NoSock] /\ queue = [h \in Socks |-> <<>>] /\ sent = [h \in Socks |-> 0]
          /\ rcvd = [h \in Socks |-> 0] /\ dg = [h \in Socks |-> {}]
 NotAvailable == 502
